@@ -115,6 +115,17 @@ fn oracle(c: &ProgCase) -> Verdict {
             // fresh lower bound from the deterministic bounds on secret, mask and error: norm <= 2^lv
             let lv = m.pool[i].lv;
             let min_budget = (w.levels[0].qbits as f64 - (lv.floor() + 1.0) - 1.0).max(0.0) as usize;
+            // the deterministic bound puts the noise of this fresh encryption below the decryption threshold: it has to decrypt to its message
+            if min_budget >= 1 && m.pool[i].level == 0 && f.0.is_empty() {
+                if let (Ok(cf), msg) = (to_coeff(&w, &m.pool[i].ct), &m.pool[i].msg) {
+                    let me = measure(&w, &cf, &s);
+                    if me.decrypt_safe && me.decrypt != *msg {
+                        let pos = (0..me.decrypt.len().min(msg.len())).find(|&x| me.decrypt[x] != msg[x]).unwrap_or(0);
+                        f.add("C07/fresh-decrypt", format!("{scheme} fresh element {i}: worst-case noise 2^{lv:.1} is below the threshold (Q {} bits, reported budget {b}) but the exactly rounded phase is not the message: coefficient {pos} = {} instead of {} (t={})",
+                            w.levels[0].qbits, me.decrypt.get(pos).copied().unwrap_or(0), msg.get(pos).copied().unwrap_or(0), w.t()));
+                    }
+                }
+            }
             if b < min_budget { f.add("C07/fresh-bound", format!("{scheme} fresh element {i}: budget {b} below the worst-case minimum {min_budget} (bound 2^{lv:.1}, Q {} bits)", w.levels[0].qbits)); }
         }
         budgets.push(b.unwrap_or(0));
